@@ -157,9 +157,9 @@ impl<'a> IrEmitter<'a> {
 
     /// Escape Rust keywords by adding `r#` prefix.
     ///
-    /// Note: `self` and `Self` cannot be raw identifiers.
+    /// Note: `self`, `Self`, `crate` and `super` cannot be raw identifiers (they only occur as path segments).
     fn escape_keyword(name: &str) -> String {
-        if matches!(name, "self" | "Self") {
+        if matches!(name, "self" | "Self" | "crate" | "super") {
             return name.to_string();
         }
         // Strict + reserved keywords
